@@ -197,6 +197,18 @@ func cases(thorough bool) []fcase {
 			out = append(out, fcase{Source: "context", Variant: v, Mode: m})
 		}
 	}
+	// the retry-backoff sleep as a blocking point: attempt 1 fails Trailers-Only
+	// UNAVAILABLE under a retry policy, the context ends while the client sleeps
+	// before attempt 2; "-sendpath" delays the first SendMsg so that the retry
+	// (and the sleep) happens inside SendMsg instead of RecvMsg
+	for _, v := range []string{"cancel-in-backoff", "deadline-in-backoff", "cancel-cause-in-backoff", "deadline-cause-in-backoff"} {
+		for _, m := range []string{"unary", "bidi", "sstream", "cstream", "udesc"} {
+			out = append(out, fcase{Source: "context", Variant: v, Mode: m})
+			if m != "unary" {
+				out = append(out, fcase{Source: "context", Variant: v + "-sendpath", Mode: m})
+			}
+		}
+	}
 	for _, v := range []string{"closed-before", "closed-in-pick", "closed-wait-header", "closed-in-recv"} {
 		for _, m := range modes {
 			out = append(out, fcase{Source: "channel", Variant: v, Mode: m})
@@ -410,7 +422,7 @@ func (d *driver) finished() bool {
 
 // drive issues one RPC in the given mode and records every error returned by
 // the four API entry points.
-func drive(ctx context.Context, cc *grpc.ClientConn, c fcase, payload any, opts []grpc.CallOption, sendAfterClose bool) *driver {
+func drive(ctx context.Context, cc *grpc.ClientConn, c fcase, payload any, opts []grpc.CallOption, sendAfterClose bool, preSend time.Duration) *driver {
 	d := &driver{done: make(chan struct{})}
 	go func() {
 		defer close(d.done)
@@ -423,6 +435,9 @@ func drive(ctx context.Context, cc *grpc.ClientConn, c fcase, payload any, opts 
 		d.add("NewStream", err)
 		if err != nil {
 			return
+		}
+		if preSend > 0 {
+			time.Sleep(preSend) // virtual: the peer's answer to the request headers has been processed by now
 		}
 		nsend := 1
 		if c.Mode == "bidi" || c.Mode == "cstream" {
@@ -486,6 +501,7 @@ func runCase(c fcase) (out outcome) {
 	var ctl *e2e.Ctl
 	var rawCh <-chan *memconn.Conn
 	sendAfterClose := false
+	var preSend time.Duration
 	var sopts []grpc.ServerOption
 	injected := mkErrFor(c)
 
@@ -559,9 +575,23 @@ func runCase(c fcase) (out outcome) {
 		case "cancel-in-recv", "deadline-in-recv", "cancel-cause":
 			beh = "hdrhang"
 		}
+		backoff := strings.Contains(c.Variant, "-in-backoff")
+		if backoff {
+			beh = "failall"
+			// 8-12 s of backoff (jitter): the cancel (issued at the first
+			// quiescent point) and the 500 ms deadline both fall inside it
+			cfg.ServiceConfig = e2e.SC("", `"retryPolicy":{"maxAttempts":3,"initialBackoff":"10s","maxBackoff":"10s","backoffMultiplier":1,"retryableStatusCodes":["UNAVAILABLE"]}`)
+			if strings.HasSuffix(c.Variant, "-sendpath") {
+				preSend = time.Millisecond
+			}
+		}
 		if strings.HasPrefix(c.Variant, "deadline-") {
 			var c2 context.CancelFunc
-			ctx, c2 = context.WithTimeout(ctx, 500*time.Millisecond)
+			if strings.HasPrefix(c.Variant, "deadline-cause") {
+				ctx, c2 = context.WithTimeoutCause(ctx, 500*time.Millisecond, errors.New("custom deadline cause"))
+			} else {
+				ctx, c2 = context.WithTimeout(ctx, 500*time.Millisecond)
+			}
 			cleanup = append(cleanup, c2)
 		}
 	case "channel":
@@ -610,6 +640,12 @@ func runCase(c fcase) (out outcome) {
 		}
 	}
 	ctx = metadata.AppendToOutgoingContext(ctx, "x-beh", beh)
+	if c.Source == "context" && strings.HasPrefix(c.Variant, "cancel-cause-in-backoff") {
+		var cc2 context.CancelCauseFunc
+		ctx, cc2 = context.WithCancelCause(ctx)
+		cleanup = append(cleanup, func() { cc2(nil) })
+		cancel = func() { cc2(errors.New("custom cancel cause")) }
+	}
 	if c.Source == "context" && c.Variant == "cancel-cause" {
 		var cc2 context.CancelCauseFunc
 		ctx, cc2 = context.WithCancelCause(ctx)
@@ -676,7 +712,7 @@ func runCase(c fcase) (out outcome) {
 		closeCC()
 	}
 
-	d := drive(ctx, cl.CC, c, payload, opts, sendAfterClose)
+	d := drive(ctx, cl.CC, c, payload, opts, sendAfterClose, preSend)
 	synctest.Wait()
 
 	switch c.Source {
@@ -685,6 +721,10 @@ func runCase(c fcase) (out outcome) {
 		hits += int64(applyWireFault(c, peer, d))
 		hmu.Unlock()
 	case "context":
+		if preSend > 0 {
+			time.Sleep(2 * preSend)
+			synctest.Wait()
+		}
 		if strings.HasPrefix(c.Variant, "cancel-") {
 			if !d.finished() {
 				hmu.Lock()
@@ -970,6 +1010,21 @@ func TestVerifC24(t *testing.T) {
 				if got != c.Code {
 					r.Violation("control-plane-code-altered:"+c.Source, fam, i, c, "%s: the %s returned a status with the allowed code %v; %s surfaced %v (%q)", c, c.Source, c.Code, api, got, ferr.Error())
 				}
+			}
+		}
+		// context errors surface as CANCELLED / DEADLINE_EXCEEDED
+		if c.Source == "context" && out.injected > 0 {
+			want := codes.Canceled
+			if strings.HasPrefix(c.Variant, "deadline-") || c.Variant == "pre-expired" {
+				want = codes.DeadlineExceeded
+			}
+			if api, ferr := finalError(out.obs); ferr != nil {
+				r.Count("context_code_checks", 1)
+				if st, ok := status.FromError(ferr); ok && st.Code() != want {
+					r.Violation("context-error-wrong-code", fam, i, c, "%s: the context ended (%s) and %s returned %v (%q), want %v", c, c.Variant, api, st.Code(), ferr.Error(), want)
+				}
+			} else {
+				r.Count("context_ended_but_rpc_succeeded", 1)
 			}
 		}
 		if i%97 == 0 {
